@@ -74,17 +74,58 @@ class _SimProcess:
         return True
 
 
+class _SimMainProcess:
+    """The simulated program's main process (the checking harness itself runs in a forked farm worker: the library
+    must not see that)."""
+    _identity = ()
+    name = "MainProcess"
+    daemon = False
+    exitcode = None
+
+    def __init__(self):
+        self.pid = self.ident = _REAL_GETPID()
+
+    def is_alive(self):
+        return True
+
+
 _REAL_CURRENT_PROCESS = None
+_REAL_PARENT_PROCESS = None
 _REAL_GETPID = _os.getpid
+_REAL_GETPPID = _os.getppid
 
 
 def _current_process():
     sim = kernel.ACTIVE
-    if sim is not None:
+    if sim is not None and not sim.aborting:
         t = sim.cur()
         if t is not None and t.ctx.parent is not None:
             return _SimProcess(t.ctx)
+        if t is not None:
+            return _SimMainProcess()
     return _REAL_CURRENT_PROCESS()
+
+
+def _parent_process():
+    sim = kernel.ACTIVE
+    if sim is not None and not sim.aborting:
+        t = sim.cur()
+        if t is not None and t.ctx.parent is not None:
+            par = sim.ctxs[t.ctx.parent]
+            return _SimProcess(par) if par.parent is not None else _SimMainProcess()
+        if t is not None:
+            return None                       # the simulated main process has no parent
+    return _REAL_PARENT_PROCESS()
+
+
+def _getppid():
+    sim = kernel.ACTIVE
+    if sim is not None and not sim.aborting:
+        t = sim.cur()
+        if t is not None and t.ctx.parent is not None:
+            par = sim.ctxs[t.ctx.parent]
+            return 40000 + par.pid if par.parent is not None else _REAL_GETPID()
+    return _REAL_GETPPID()
 
 
 def _getpid():
@@ -106,7 +147,11 @@ def install():
         # calling multiprocessing.process.current_process)
         _REAL_CURRENT_PROCESS = multiprocessing.current_process
         multiprocessing.current_process = _current_process
+        global _REAL_PARENT_PROCESS
+        _REAL_PARENT_PROCESS = multiprocessing.parent_process
+        multiprocessing.parent_process = _parent_process
         _os.getpid = _getpid
+        _os.getppid = _getppid
     hypertuner.os = OS
     multitask.os = OS
     hypertuner.datetime = DATETIME
